@@ -7,7 +7,10 @@
            Device/DLCDAnimW.v - the clock arithmetic of the tick helpers at the width W of unsigned long (millis(),
                                 last_step, elapsed, speed_ms are residues modulo 2^W; W is a parameter of every
                                 theorem, 32 on AVR, 64 under the mock's compiler): [drun1W] over TRUE tick times;
-           Host/LCDAnim.v     - LCD.animate / LCD.tick / _AnimationState (Displays/LCD.py 277-430).
+           Host/LCDAnim.v     - LCD.animate / LCD.tick / _AnimationState (Displays/LCD.py 277-430);
+           Host/LCDReg.v      - the animation REGISTRY of the host class (self.animations: an insertion-ordered dict
+                                keyed '<style>:<row>:<len(self.animations)>') as a state machine over whole call
+                                histories: animate / tick / line / clear / begin in any order (C18_host_registry theorems).
    millis() / now_ms is an explicit argument: the statements quantify over every list of tick times;
    [tick_times_ok] = positive and non-decreasing (the property's quantifier).  Widths: 1 <= cols.
    A "step" is a tick that passed the rate limiter ([dgate]/[hgate] true); [step_times] lists their
@@ -27,6 +30,7 @@ From RV Require Import Host.LCDAnim Device.DLCDAnim Proofs.LCDAnimP Proofs.LCDAn
 From RV Require Import Gen.LcdAnimTables Proofs.LCDAnimG Proofs.LCDAnimP3 Proofs.LCDAnimP4.
 From RV Require Import Device.DLCDInject Proofs.LCDInjectP.
 From RV Require Import Device.DLCDAnimW Proofs.LCDAnimW.
+From RV Require Import Host.LCDReg Proofs.LCDRegP.
 Import ListNotations.
 Open Scope Z_scope.
 
@@ -574,6 +578,135 @@ Theorem C18_host_run_events :
   Forall (fun x => hno_delay (snd x) /\ hin_row cols (h_row st) (snd x)) tr.
 Proof. exact hsteps_events. Qed.
 Print Assumptions C18_host_run_events.
+
+(* ================================================================== host registry over call histories *)
+
+(* Objects: [rreach l] = LCD(cols, rows) followed by ANY list of calls animate / tick / line / clear / begin
+   (failing calls included: they change nothing).  The registry is the dict of the real class: animate stores
+   the new state under (style, row, number of entries) - replacing whatever is stored under an equal key. *)
+
+(* LCD.tick raises in no history *)
+Theorem C18_host_history_tick_total :
+  forall (l : rlcd) (now : Z), rreach l -> rtick l now <> None.
+Proof. exact host_history_tick_total. Qed.
+Print Assumptions C18_host_history_tick_total.
+
+(* animate raises exactly for a row outside the display, in every history *)
+Theorem C18_host_history_animate_validates :
+  forall (l : rlcd) (sty : style) (row : Z) (text : list Z) (speed : Z) (lp : bool),
+  rreach l -> (ranimate l sty row text speed lp = None <-> ~ (0 <= row < r_rows l)).
+Proof. exact host_history_animate_validates. Qed.
+Print Assumptions C18_host_history_animate_validates.
+
+(* the bookkeeping invariant, by induction over the history: the i-th entry sits under (its style, its row, i) *)
+Theorem C18_host_registry_keys :
+  forall l : rlcd, rreach l -> reg_keys_ok (r_reg l).
+Proof. exact host_registry_keys. Qed.
+Print Assumptions C18_host_registry_keys.
+
+Theorem C18_host_registry_keys_distinct :
+  forall l : rlcd, rreach l -> NoDup (map fst (r_reg l)).
+Proof. exact host_registry_keys_distinct. Qed.
+Print Assumptions C18_host_registry_keys_distinct.
+
+(* registering one animation never replaces another one - live or finished, same style and row or not: the
+   registry after a successful animate is the registry before it plus one entry at the end *)
+Theorem C18_host_animate_never_replaces :
+  forall (l : rlcd) (sty : style) (row : Z) (text : list Z) (speed : Z) (lp : bool) (l' : rlcd) (ev : list hev),
+  rreach l -> ranimate l sty row text speed lp = Some (l', ev) ->
+  r_reg l' = r_reg l ++ [((sty, row, zlen (r_reg l)), hstart sty row text speed lp)].
+Proof. exact host_animate_never_replaces. Qed.
+Print Assumptions C18_host_animate_never_replaces.
+
+(* every registered animation is advanced by every tick, through its own rate limiter, and stays under its key *)
+Theorem C18_host_tick_advances_every_entry :
+  forall (l : rlcd) (now : Z), rreach l ->
+  exists l' ev, rtick l now = Some (l', ev) /\
+    forall i k st, nth_error (r_reg l) i = Some (k, st) ->
+      exists b0 b1 e st', buf_wf (r_cols l) (r_rows l) b0 /\
+        htick1 (r_cols l) (r_rows l) now st b0 = Some (st', b1, e) /\
+        nth_error (r_reg l') i = Some (k, st').
+Proof. exact host_tick_advances_every_entry. Qed.
+Print Assumptions C18_host_tick_advances_every_entry.
+
+(* only begin() unregisters: across any other call the keys registered so far stay, in order *)
+Theorem C18_host_only_begin_unregisters :
+  forall (l : rlcd) (o : rop), rreach l -> is_begin o = false ->
+  exists more, map fst (r_reg (fst (rstep l o))) = map fst (r_reg l) ++ more.
+Proof. exact host_only_begin_unregisters. Qed.
+Print Assumptions C18_host_only_begin_unregisters.
+
+(* a registered animation through ANY further history without begin(): it stays at its place under its key and is
+   one [hsteps] run over the tick times of that history (so all single-animation theorems above apply to it);
+   a live looping one is still active at the end *)
+Theorem C18_host_registered_entry_run :
+  forall (l : rlcd) (ops : list rop) (i : nat) (k : hkey) (st : hstate),
+  rreach l -> no_begin ops -> nth_error (r_reg l) i = Some (k, st) ->
+  exists stn tr, hsteps (r_cols l) (r_rows l) st (ticks_of ops) stn tr /\
+                 nth_error (r_reg (rrun l ops)) i = Some (k, stn) /\
+                 (h_loop st = true -> h_active st = true -> h_active stn = true).
+Proof. exact host_registered_entry_run. Qed.
+Print Assumptions C18_host_registered_entry_run.
+
+(* end to end: LCD(), any history, this animate, any history without begin() (other animate calls of the same
+   style and row, animations finishing, line / clear in between): the animation is still registered under the key
+   it got, it is an [hsteps] run from its start state over the ticks of the history; looping: active and no tick
+   skipped unless early; non-looping: inactive after exactly hsteps_total <= len + 2*cols + 2 steps; rate-limited *)
+Theorem C18_host_registry_animation_run :
+  forall (l : rlcd) (sty : style) (row : Z) (text : list Z) (speed : Z) (lp : bool)
+         (l1 : rlcd) (ev0 : list hev) (ops : list rop),
+  rreach l -> ranimate l sty row text speed lp = Some (l1, ev0) -> no_begin ops ->
+  exists stn tr,
+    nth_error (r_reg (rrun l1 ops)) (length (r_reg l)) = Some ((sty, row, zlen (r_reg l)), stn) /\
+    hsteps (r_cols l) (r_rows l) (hstart sty row text speed lp) (ticks_of ops) stn tr /\
+    (lp = true -> h_active stn = true /\
+                  (Forall (fun t => 0 <= t) (ticks_of ops) -> no_step_lost (Z.max 0 speed) 0 tr)) /\
+    (lp = false -> step_count tr <= hsteps_total sty (r_cols l) text /\
+                   (h_active stn = true <-> step_count tr < hsteps_total sty (r_cols l) text) /\
+                   hsteps_total sty (r_cols l) text <= zlen text + 2 * r_cols l + 2) /\
+    (tick_times_ok (ticks_of ops) -> rate_limited (Z.max 0 speed) (step_times tr)).
+Proof. exact host_registry_animation_run. Qed.
+Print Assumptions C18_host_registry_animation_run.
+
+(* the registry object seen through [r_lcd] is the list model of Host/LCDAnim.v *)
+Theorem C18_host_registry_refines_animate :
+  forall (l : rlcd) (sty : style) (row : Z) (text : list Z) (speed : Z) (lp : bool) (l' : rlcd) (ev : list hev),
+  rreach l -> ranimate l sty row text speed lp = Some (l', ev) ->
+  hanimate (r_lcd l) sty row text speed lp = Some (r_lcd l', ev).
+Proof. exact ranimate_refines. Qed.
+Print Assumptions C18_host_registry_refines_animate.
+
+Theorem C18_host_registry_refines_tick :
+  forall (l : rlcd) (now : Z) (l' : rlcd) (ev : list hev),
+  rreach l -> rtick l now = Some (l', ev) -> htick (r_lcd l) now = Some (r_lcd l', ev).
+Proof. exact rtick_refines. Qed.
+Print Assumptions C18_host_registry_refines_tick.
+
+(* why the entry count may serve as a key: only because nothing is ever removed.  The tidier bookkeeping "forget
+   finished animations, then derive the key from the count" loses a live looping animation on a reachable object:
+   one-shot blink, looping scroll on row 0, two ticks (the blink is over), one-shot scroll on row 0 - the registry
+   then holds ONE entry and no looping one *)
+Theorem C18_pruned_count_key_refuted :
+  exists l0 l k st l' ev,
+    rnew 8 2 = Some l0 /\ l = rrun l0 ex_ops /\
+    nth_error (r_reg l) 1 = Some (k, st) /\ h_loop st = true /\ h_active st = true /\
+    ranimate_pruning l Scroll 0 [33] 0 false = Some (l', ev) /\
+    length (r_reg l') = 1%nat /\ forallb (fun e => negb (h_loop (snd e))) (r_reg l') = true.
+Proof. exact pruning_key_replaces_live. Qed.
+Print Assumptions C18_pruned_count_key_refuted.
+
+(* the same history on the real bookkeeping: three entries, keys blink:1:0 / scroll:0:1 / scroll:0:2, the looping one
+   alive; the hypotheses of the registry theorems are met (reachable object, a further history without begin()) *)
+Example C18_ex_registry_history :
+  exists l0 l l' ev,
+    rnew 8 2 = Some l0 /\ l = rrun l0 ex_ops /\ rreach l /\
+    ranimate l Scroll 0 [33] 0 false = Some (l', ev) /\
+    map fst (r_reg l') = [(Blink, 1, 0); (Scroll, 0, 1); (Scroll, 0, 2)] /\
+    map (fun e => h_active (snd e)) (r_reg l') = [false; true; true] /\
+    map (fun e => h_loop (snd e)) (r_reg (rrun l' [OTick 3; OLine 0 [88]; OTick 4; OClear; OTick 5])) = [false; true; false] /\
+    no_begin [OTick 3; OLine 0 [88]; OTick 4; OClear; OTick 5].
+Proof. exact ex_registry_history. Qed.
+Print Assumptions C18_ex_registry_history.
 
 (* ================================================================== host vs device (beyond the statement) *)
 
